@@ -5,7 +5,7 @@ from props import C02
 
 PROP = 'C01'
 THEOREM_FILE = 'Props/C01.v'
-NOTES = ['operation alphabet: createAnalyticalFeature, removeAnalyticalFeature, track[n]="#DELETE", addListToAF, updateAnalyticalFeature, track[n]=v, track[n,k]=v, operate(expr); '
+NOTES = ['operation alphabet: createAnalyticalFeature, removeAnalyticalFeature, track[n]="#DELETE", addListToAF, updateAnalyticalFeature, track[n]=v, track[n,k]=v, addAnalyticalFeature(f, n) / track[n]=f (feature computed by a function), operate(expr); '
          'a call that raises before mutating is part of the history (the error class is compared); an expression that raises ends the history (the cleanup of operate() is skipped then)',
          'list initialisers have the length of the track (a shorter list raises half-way through the creation loop: outside the quantifier)',
          'operator objects (Operator.X applied directly) are covered by C02\'s objects stream; values are exact rationals']
@@ -18,7 +18,7 @@ def gen_history(rng, depth, with_expr=True):
     n = rng.randint(1, 4)
     ops = []
     for _ in range(depth):
-        k = rng.choice(['C', 'C', 'R', 'D', 'L', 'U', 'I', 'I', 'O', 'E', 'E'] if with_expr else ['C', 'C', 'R', 'D', 'L', 'U', 'I', 'I', 'O'])
+        k = rng.choice(['C', 'C', 'R', 'D', 'L', 'U', 'I', 'I', 'O', 'F', 'E', 'E'] if with_expr else ['C', 'C', 'R', 'D', 'L', 'U', 'I', 'I', 'O', 'F'])
         nm = rng.choice(NAMES)
         val = lambda: rng.choice([0, 1, 2, 3, -1, 0.5, 4])
         init = ['s', val()] if rng.random() < 0.5 else ['l', [val() for _ in range(n)]]
@@ -36,6 +36,8 @@ def gen_history(rng, depth, with_expr=True):
             ops.append(['I', nm, init])
         elif k == 'O':
             ops.append(['O', nm, rng.randrange(n), val()])
+        elif k == 'F':
+            ops.append(['F', nm, [val() for _ in range(n)], rng.choice(['add', 'item'])])       # a feature computed by a function, through addAnalyticalFeature or track[n] = f
         else:
             # an expression over the names currently plausible; assignment or not
             tree = C02.gen_tree(rng, rng.randint(1, 2))
@@ -90,6 +92,13 @@ def run_impl(case):
                 tr[nm] = mk(op[2])
             elif k == 'O':
                 tr[nm, op[2]] = float(op[3])
+            elif k == 'F':
+                vals = [float(v) for v in op[2]]
+                f = lambda track, i, vals=vals: vals[i]
+                if op[3] == 'item' and nm not in ('x', 'y', 'z'):
+                    tr[nm] = f
+                else:
+                    tr.addAnalyticalFeature(f, nm)
             else:
                 ret = tr.operate(nm)
             err = None
@@ -131,6 +140,8 @@ def op_lit(op):
         return 'XSetItem (%s) (%s)' % (N, init_lit(op[2]))
     if k == 'O':
         return 'XSetObs (%s) %d%%nat (Some %s)' % (N, op[2], q(op[3]))
+    if k == 'F':
+        return 'XAddFun (%s) %s' % (N, _col(op[2]))
     return 'XExpr (%s)' % N
 
 
@@ -184,6 +195,9 @@ def oracle(case, obs):
                 co[nm][op[2]] = float(op[3])
             elif nm in spec:
                 spec[nm] = list(spec[nm]); spec[nm][op[2]] = float(op[3])
+        elif k == 'F':
+            if nm not in virt:
+                spec[nm] = [float(v) for v in op[2]]
         else:
             if st['err'] is not None:
                 return None
